@@ -67,13 +67,27 @@ func (h *Hist) Reset() {
 	for _, op := range h.Prefix {
 		h.Apply(op)
 		if h.dead || len(h.viols) > 0 {
-			panic(fmt.Sprintf("harness: scripted prefix block %q fails: %v", op, h.viols))
+			// a block of the scripted prefix fails: that is a violation of the start state, reported here
+			// (the explorer does not visit the root), and nothing is explored from it
+			for _, v := range h.viols {
+				v.System = "scripted prefix " + strings.Join(h.Prefix, " ; ")
+				v.Config = fmt.Sprintf("%+v", curCfg)
+				v.Detail = fmt.Sprintf("in scripted prefix block %q; %s", op, v.Detail)
+				v.Ops = []string{}
+				h.R.Report(v)
+			}
+			if len(h.viols) == 0 {
+				h.R.Count("scripted_prefixes_ended_early_without_a_violation(logging_crit_judged_by_C07)", 1)
+			}
+			h.dead = true
+			h.viols = nil
+			break
 		}
 	}
 	h.inPre = false
 	// the oracle's baseline is the supply at the start state of the exploration (a scripted
 	// prefix is itself a path of the from-genesis exploration and is judged there)
-	if len(h.Prefix) > 0 {
+	if len(h.Prefix) > 0 && !h.dead {
 		s, err := SupplyOf(h.Node, h.Txs)
 		if err != nil {
 			panic(err)
@@ -240,7 +254,7 @@ func (h *Hist) Apply(op string) string {
 		}
 		from, _ := types.Sender(types.MakeSigner(num), tx)
 		st.SetNonce(from, st.GetNonce(from)+1) // scratch state only (never committed)
-		h.Txs[tx.Hash()] = TxInfo{Op: t, Escrow: escrowOf(h.F, t)}
+		h.Txs[tx.Hash()] = TxInfo{Op: t, Escrow: escrowFor(h.F, t, tx)}
 		txs = append(txs, tx)
 	}
 	var evs []staking.Evidence
@@ -418,7 +432,7 @@ func (h *Hist) BuildOnly(op string) (*types.Block, error) {
 		from, _ := types.Sender(types.MakeSigner(num), tx)
 		st.SetNonce(from, st.GetNonce(from)+1)
 		if h.Txs != nil {
-			h.Txs[tx.Hash()] = TxInfo{Op: t, Escrow: escrowOf(h.F, t)}
+			h.Txs[tx.Hash()] = TxInfo{Op: t, Escrow: escrowFor(h.F, t, tx)}
 		}
 		txs = append(txs, tx)
 	}
